@@ -482,6 +482,14 @@ func c04Decoded(r *Run) {
 		c04Rotated(r)
 		return
 	}
+	if t.Bool(1, 10, "c04.recycled") {
+		c04Recycled(r)
+		return
+	}
+	if t.Bool(1, 12, "c04.standalone") {
+		c04Standalone(r)
+		return
+	}
 	key := pickCheapKey(t)
 	algItem, algKind := c04AlgValue(t, key.Alg)
 	if algKind == "wrongtype" {
@@ -751,4 +759,283 @@ verify:
 		return
 	}
 	r.Probe("rotated-objects-judged-by-current-algorithm")
+}
+
+// c04Recycled: an application object built in memory (COSE_Sign1 message,
+// COSE_Signature, countersignature) that is signed, then used again for the
+// next job: the application writes another algorithm into its protected
+// header, empties the signature and signs with a signer of that algorithm; or
+// it only edits the header and asks a verifier of the new algorithm.  The
+// bytes a key is invoked on state the algorithm of that key.
+func c04Recycled(r *Run) {
+	t := r.T
+	k1 := pickCheapKey(t)
+	k2 := otherKey(t, k1, false)
+	if k2 == nil || k2.Alg == k1.Alg {
+		k2 = poolEd[0]
+		if k1.Alg == k2.Alg {
+			k2 = poolEC[0]
+		}
+	}
+	if _, isRSA := k2.Priv.Public().(interface{ Size() int }); isRSA {
+		k2 = poolEC[3]
+		if k2.Alg == k1.Alg {
+			k2 = poolEC[0]
+		}
+	}
+	ent := NewEntropy(uint64(t.U32("entropy.seed")))
+	external := genExternal(t)
+	hdr := func(alg int64) cose.Headers {
+		h := libHeaders(genLayer(t, LayerOpts{MaxExtra: 2, Alg: &alg}), Spelling{T: t}, t.Bool(1, 2, "c04.rc.typed"))
+		if h.Unprotected == nil {
+			h.Unprotected = cose.UnprotectedHeader{}
+		}
+		return h
+	}
+	target := []string{"Sign1Message", "Signature", "Countersignature"}[t.Choose(3, "c04.rc.target")]
+	var m1 *cose.Sign1Message
+	var sg *cose.Signature
+	var cs *cose.Countersignature
+	var parent *cose.Sign1Message
+	var body *cose.SignMessage
+	var headers *cose.Headers
+	var sigSlot *[]byte
+	tbsIdx := 1
+	switch target {
+	case "Sign1Message":
+		m1 = &cose.Sign1Message{Headers: hdr(k1.Alg), Payload: genPayload(t, false)}
+		headers, sigSlot = &m1.Headers, &m1.Signature
+	case "Signature":
+		sg = &cose.Signature{Headers: hdr(k1.Alg)}
+		body = &cose.SignMessage{Headers: cose.Headers{Protected: cose.ProtectedHeader{}, Unprotected: cose.UnprotectedHeader{}}, Payload: genPayload(t, false), Signatures: []*cose.Signature{sg}}
+		headers, sigSlot, tbsIdx = &sg.Headers, &sg.Signature, 2
+	default:
+		parent = c04Parent(r, ent)
+		cs = &cose.Countersignature{Headers: hdr(k1.Alg)}
+		headers, sigSlot, tbsIdx = &cs.Headers, &cs.Signature, 2
+	}
+	sign := func(s cose.Signer) error {
+		var err error
+		r.Lib(func() {
+			switch target {
+			case "Sign1Message":
+				err = m1.Sign(ent, external, s)
+			case "Signature":
+				err = sg.Sign(ent, s, []byte{0x40}, body.Payload, external)
+			default:
+				err = cs.Sign(ent, s, parent, external)
+			}
+		})
+		return err
+	}
+	verify := func(v cose.Verifier) error {
+		var err error
+		r.Lib(func() {
+			switch target {
+			case "Sign1Message":
+				err = m1.Verify(external, v)
+			case "Signature":
+				err = sg.Verify(v, []byte{0x40}, body.Payload, external)
+			default:
+				err = cs.Verify(v, parent, external)
+			}
+		})
+		return err
+	}
+	first := &SpySigner{Inner: r.signerFor(k1, false), Alg: cose.Algorithm(k1.Alg)}
+	if err := sign(first); err != nil {
+		r.Outcome("recycled/first-use-refused")
+		return
+	}
+	if t.Bool(1, 2, "c04.rc.encoded") {
+		// the first job's result was sent
+		r.Lib(func() {
+			switch target {
+			case "Sign1Message":
+				m1.MarshalCBOR()
+			case "Signature":
+				sg.MarshalCBOR()
+			default:
+				cs.MarshalCBOR()
+			}
+		})
+	}
+	// the next job: another algorithm in the protected header of the same object
+	if t.Bool(1, 2, "c04.rc.newmap") {
+		nh := hdr(k2.Alg)
+		headers.Protected = nh.Protected
+	} else {
+		for l := range headers.Protected {
+			if v, ok := asInt64(l); ok && v == refcose.LAlg {
+				delete(headers.Protected, l)
+			}
+		}
+		headers.Protected[cose.HeaderLabelAlgorithm] = cose.Algorithm(k2.Alg)
+	}
+	r.Fired("app.recycles-signed-object-under-another-alg")
+	stated := func(content []byte) (int64, bool) {
+		f, ok := tbsField(content, tbsIdx)
+		if !ok {
+			return 0, false
+		}
+		a, _, err := protAlgOnWire(refcbor.Encode(refcbor.Bstr(f)))
+		if err != nil || a == nil || !a.IsInt() {
+			return 0, false
+		}
+		return mustInt(a), true
+	}
+	resign := t.Bool(2, 3, "c04.rc.resign")
+	r.Op("RECYCLE", "%s signed under alg %d, protected header rewritten to alg %d, then %s", target, k1.Alg, k2.Alg, map[bool]string{true: "signed again", false: "verified"}[resign])
+	r.Outcome(fmt.Sprintf("recycled/%s/resign=%v/%s", target, resign, extClass(external)))
+	r.Check()
+	if resign {
+		*sigSlot = nil
+		second := &SpySigner{Inner: r.signerFor(k2, false), Alg: cose.Algorithm(k2.Alg)}
+		err := sign(second)
+		if len(second.Calls) == 0 {
+			if err == nil {
+				r.Fail("recycled-object-signed-without-its-signer/"+target, "Sign returned nil and the signer was not called")
+			}
+			return
+		}
+		if a, ok := stated(second.Calls[0].Content); !ok || a != k2.Alg {
+			r.Fail("ledger-signed-under-other-alg/recycled-object/"+target, "a %s signed under alg %d was given alg %d in its protected header, its signature emptied, and signed again: the signer of algorithm %d was invoked on a structure whose protected bytes state alg %d (found=%v)\ncontent: %s", target, k1.Alg, k2.Alg, k2.Alg, a, ok, hexShort(second.Calls[0].Content))
+			return
+		}
+		// what is emitted states what was signed
+		var out []byte
+		var merr error
+		r.Lib(func() {
+			switch target {
+			case "Sign1Message":
+				out, merr = m1.MarshalCBOR()
+			case "Signature":
+				out, merr = sg.MarshalCBOR()
+			default:
+				out, merr = cs.MarshalCBOR()
+			}
+		})
+		if merr == nil && err == nil {
+			it, perr := refcbor.ParseOne(out)
+			if perr == nil && it.Major == refcbor.MTag && len(it.Elems) == 1 {
+				it = it.Elems[0]
+			}
+			if perr == nil && it.Major == refcbor.MArray && len(it.Elems) >= 3 && it.Elems[0].Major == refcbor.MBstr {
+				a, _, e := protAlgOnWire(refcbor.Encode(refcbor.Bstr(it.Elems[0].Data)))
+				if e != nil || a == nil || !a.IsInt() || mustInt(a) != k2.Alg {
+					r.Fail("ledger-emitted-alg-differs-from-signed-alg/recycled-object/"+target, "signed again under alg %d, the %s is emitted with protected bytes stating %s\n%s", k2.Alg, target, diagOrAbsent(a), hexShort(out))
+				}
+			}
+		}
+		return
+	}
+	spyV := &SpyVerifier{Inner: r.verifierFor(k2, false), Alg: cose.Algorithm(k2.Alg)}
+	verify(spyV)
+	if len(spyV.Calls) > 0 {
+		if a, ok := stated(spyV.Calls[0].Content); !ok || a != k2.Alg {
+			r.Fail("ledger-verified-under-other-alg/recycled-object/"+target, "a %s signed under alg %d was given alg %d in its protected header: the verifier of algorithm %d was consulted on a structure whose protected bytes state alg %d (found=%v)", target, k1.Alg, k2.Alg, k2.Alg, a, ok)
+		}
+	}
+}
+
+// c04Standalone: a stand-alone COSE_Signature / countersignature is decoded
+// out of a receive buffer; the next datagram - an object of the same length
+// made under another algorithm - is then read into the same buffer.  The
+// decoded object is verified afterwards: the verifier that is consulted is the
+// one its own protected bytes name, and those are the bytes it is handed.
+func c04Standalone(r *Run) {
+	t := r.T
+	ent := NewEntropy(uint64(t.U32("entropy.seed")))
+	// ES256 and EdDSA: one-byte alg values, 64-byte signatures - equal lengths
+	ka, kb := poolEC[0], poolEd[0]
+	for _, k := range poolEC {
+		if k.Alg == -7 {
+			ka = k
+		}
+	}
+	if ka.Alg != -7 || kb.Alg != -8 {
+		r.Skip("no ES256/EdDSA pair in the pool")
+	}
+	if t.Bool(1, 2, "c04.sa.swap") {
+		ka, kb = kb, ka
+	}
+	kid := t.Bytes(1+t.Choose(8, "c04.sa.kid.n"), "c04.sa.kid")
+	asCsig := t.Bool(1, 2, "c04.sa.countersignature")
+	parent := c04Parent(r, ent)
+	bodyProt, payload := []byte{0x40}, []byte("stand-alone")
+	external := genExternal(t)
+	mk := func(k *KeyPair) []byte {
+		h := cose.Headers{Protected: cose.ProtectedHeader{cose.HeaderLabelAlgorithm: cose.Algorithm(k.Alg)}, Unprotected: cose.UnprotectedHeader{cose.HeaderLabelKeyID: kid}}
+		var out []byte
+		var err error
+		r.Lib(func() {
+			if asCsig {
+				c := &cose.Countersignature{Headers: h}
+				if err = c.Sign(ent, r.signerFor(k, false), parent, external); err == nil {
+					out, err = c.MarshalCBOR()
+				}
+			} else {
+				g := &cose.Signature{Headers: h}
+				if err = g.Sign(ent, r.signerFor(k, false), bodyProt, payload, external); err == nil {
+					out, err = g.MarshalCBOR()
+				}
+			}
+		})
+		if err != nil {
+			r.Skip("stand-alone object could not be made: " + err.Error())
+		}
+		return out
+	}
+	a, b := mk(ka), mk(kb)
+	if len(a) != len(b) {
+		r.Skip("objects differ in length")
+	}
+	buf := append([]byte{}, a...)
+	var sg cose.Signature
+	var cs cose.Countersignature
+	var derr error
+	r.Lib(func() {
+		if asCsig {
+			derr = cs.UnmarshalCBOR(buf)
+		} else {
+			derr = sg.UnmarshalCBOR(buf)
+		}
+	})
+	if derr != nil {
+		r.Outcome("standalone/decode-refused")
+		return
+	}
+	copy(buf, b) // the next datagram arrives
+	r.Fired("buf.next-datagram-same-length-other-alg")
+	r.Op("STANDALONE", "countersignature=%v decoded from a buffer (alg %d), buffer then holds an object of the same length under alg %d", asCsig, ka.Alg, kb.Alg)
+	r.Outcome(fmt.Sprintf("standalone/csig=%v/%s", asCsig, extClass(external)))
+	for _, k := range []*KeyPair{ka, kb} {
+		spy := &SpyVerifier{Inner: r.verifierFor(k, false), Alg: cose.Algorithm(k.Alg)}
+		var verr error
+		r.Lib(func() {
+			if asCsig {
+				verr = cs.Verify(spy, parent, external)
+			} else {
+				verr = sg.Verify(spy, bodyProt, payload, external)
+			}
+		})
+		r.Check()
+		if k == kb {
+			if len(spy.Calls) > 0 || verr == nil {
+				r.Fail("verify-reaches-verifier-of-other-alg/standalone-object", "the object's protected bytes say alg %d; a verifier of algorithm %d was consulted %d time(s), Verify returned %v", ka.Alg, kb.Alg, len(spy.Calls), verr)
+			}
+			continue
+		}
+		if len(spy.Calls) == 0 {
+			r.Fail("verify-does-not-reach-verifier/standalone-object", "the object's protected bytes say alg %d; the verifier of that algorithm was not consulted (%v)", ka.Alg, verr)
+			continue
+		}
+		f, ok := tbsField(spy.Calls[0].Content, 2)
+		want := []byte{0xa1, 0x01, byte(0x20 | (-1 - ka.Alg))}
+		if !ok || !bytes.Equal(f, want) {
+			r.Fail("ledger-verified-under-other-alg/standalone-object", "the verifier of algorithm %d was handed a structure whose signer-protected field is %x (want %x): the object was decoded from a buffer that has since received another object", ka.Alg, f, want)
+		} else if verr != nil {
+			r.Fail("standalone-object-does-not-verify-after-buffer-reuse", "a stand-alone object decoded from a buffer no longer verifies once the buffer holds the next datagram: %v", verr)
+		}
+	}
 }
